@@ -746,3 +746,29 @@ def param_index_of_origin(prog, ctx, o):
             if n == o.key[1] and not p.proj and 1 <= p.local <= fb.argc:
                 return p.local - 1
     return None
+
+
+def foreign_controls(ctx, bb, allowed, depth=6):
+    """controlling switches of block bb that can drop it: not a loop-exit test of a loop around bb,
+    not a pure error guard (all other edges cannot reach an Ok return), and whose discriminant has
+    a data origin not accepted by `allowed(origin)`.  Returns [(switch block, offending origins)]."""
+    okb = set(ctx.ok_return_blocks())
+    rets = [b.idx for b in ctx.body.blocks if not b.cleanup and b.term is not None and b.term.k == "return"]
+    can_ok = ctx.cfg.backward_reach(okb) if okb else ctx.cfg.backward_reach(set(rets))
+    comp = next((c for c in ctx.cfg.sccs() if len(c) > 1 and bb in c), None)
+    edges_all = ctx.cfg.edges()
+    out = []
+    for sbb, edges in ctx.cfg.control_switches(bb):
+        if sbb == bb:
+            continue
+        if comp is not None and sbb in comp and any(e[0] == sbb and e[1] not in comp for e in edges_all):
+            continue
+        others = [e for e in ctx.cfg.succ[sbb] if e not in edges]
+        if okb and all(e[1] not in can_ok for e in others):
+            continue
+        sw = ctx.body.blocks[sbb].term
+        deps = [o for o in deep_origins(ctx, sw.discr, depth) if o.kind in ("param", "upvar", "call", "const")]
+        bad = [o for o in deps if not allowed(o)]
+        if bad:
+            out.append((sbb, bad))
+    return out
